@@ -42,7 +42,8 @@ fn print_string(mem: &mut Memory, string: String) -> GcRef {
     for c in string.chars().rev() {
         let character = mem.allocate_character(c);
         result = mem.allocate_cons(character, result);
-        if c == '"' {
+        if c == '"' || c == '\\' {
+            // the reader treats a backslash inside a string literal as the start of an escape
             result = mem.allocate_cons(backslash.clone(), result);
         }
     }
